@@ -1,6 +1,7 @@
 (* C08 - database discovery is sound and verification notices violating rows. *)
 From Coq Require Import ZArith List Bool.
-From Tdda Require Import Base.Sexp Base.Str Generated.Consts Constraints.Model Constraints.ModelProofs Constraints.SqlText.
+From Tdda Require Import Base.Sexp Base.Str Generated.Consts Constraints.Model Constraints.ModelProofs Constraints.SqlText
+  Constraints.Detect Constraints.ClosureDetect.
 Import ListNotations.
 Open Scope Z_scope.
 
@@ -56,3 +57,16 @@ Theorem C08_perturb_duplicate : forall p c v, In v (non_nulls c) ->
   verify p (Some (add_row c (Some v))) (CNoDup (Some true)) = false.
 Proof. exact perturb_duplicate_proof. Qed.
 Print Assumptions C08_perturb_duplicate.
+
+(* table level: a whole table (any number of columns) verified with the constraints discovered from it counts no
+   failure; and whenever some row breaks some constraint of some column (the perturbation theorems above give
+   verify = false for that constraint) the overall failure count of the verification is positive *)
+Theorem C08_db_table_no_failures : forall p fields, Forall self_discovered fields ->
+  v_failures (verify_dataset p (as_fields fields)) = 0.
+Proof. intros p fields H. exact (proj1 (closure_dataset_proof p fields H)). Qed.
+Print Assumptions C08_db_table_no_failures.
+
+Theorem C08_violation_is_counted : forall p (fs : list (option column * list constr)) f k,
+  In f fs -> In k (snd f) -> verify p (fst f) k = false -> 0 < v_failures (verify_dataset p fs).
+Proof. exact one_failure_is_counted_proof. Qed.
+Print Assumptions C08_violation_is_counted.
